@@ -68,7 +68,16 @@ func (l *DeadlineLimiter) tryAcquire(ctx context.Context) (listener core.Listene
 		// - A timeout
 		// - The context is cancelled
 		l.logger.Debugf("Blocking waiting for release or timeout ctx=%v", ctx)
-		if shouldAcquire := blockUntilSignaled(ctx, l.c, timeout); shouldAcquire {
+
+		// Register for the wake-up first and then try once more: a token released between the failed attempt
+		// above and the registration would otherwise be missed, its Broadcast finding nobody waiting.
+		ready := subscribe(l.c)
+		listener, ok = l.delegate.Acquire(ctx)
+		if ok && listener != nil {
+			l.logger.Debugf("delegate returned a listener ctx=%v", ctx)
+			return listener, true
+		}
+		if shouldAcquire := waitSignaled(ctx, ready, timeout); shouldAcquire {
 			listener, ok := l.delegate.Acquire(ctx)
 			if ok && listener != nil {
 				l.logger.Debugf("delegate returned a listener ctx=%v", ctx)
